@@ -23,7 +23,9 @@ MODELLED = ["compute_mu_h loop, vol_adjustment, MarkovChainProcess.__init__/init
             "first/second moment integrals of the measure: abstract additive m1, non-negative m2 over Q (concrete closed forms: C09)",
             "MarkovChainLevyCopula.initialisation (margins of a copula chain): same compute_mu_h, each margin is an instance of the "
             "1-d theorem when all axes are equal; see finding F-C04-1 for unequal axes"]
-ASSUMPTIONS = ["m1 a b = int_a^b x nu(dx) is additive and respects ==; m2 a b = int x^2 nu is non-negative (C09 discharges them for the "
+ASSUMPTIONS = ["guard of every theorem that quantifies over representations: fv = true or rep <> ZERO (the conversions raise ValueError "
+               "otherwise: C04_zero_infinite_variation_is_error, correspondence group 'raise')",
+               "m1 a b = int_a^b x nu(dx) is additive and respects ==; m2 a b = int x^2 nu is non-negative (C09 discharges them for the "
                "model families; C04_step_m1_additive for the harness's step measures)",
                "the truncation bounds are the end points of the axis (C13) and np.inf is any bound >= 1 beyond them (pinf)",
                "LevyRepresentation has exactly the members ZERO, CENTER, ONEONE, TILDE (rep in 1..4)"]
@@ -39,7 +41,7 @@ THEOREM_NOTES = {
                     "sum x_k q_k with C01's q), C04_mean_rate_explicit (the right-hand side in terms of int_l^r x nu) and "
                     "C04_conversions_preserve_mean (all four generated conversions keep the first cumulant)",
 }
-LEVEL_TEXT = ("Proof: 10 Coq theorems (closed under the global context): compute_mu_h's running-boundary loop equals sum_k x_k q_k for every "
+LEVEL_TEXT = ("Proof: 11 Coq theorems (closed under the global context): compute_mu_h's running-boundary loop equals sum_k x_k q_k for every "
               "axis; process_drift + sum_k x_k q_k equals the first cumulant per unit time of (a, sigma, nu|[l,r]) in the declared "
               "representation for all four representations and both variation flags (pure algebra over additivity of the first-moment "
               "integral; the four conversions are re-translated from levymodel.py on every run); sigma_h^2 = sigma^2 for finite variation "
@@ -105,7 +107,7 @@ def correspond(res):
     def viol(what, **kw):
         res.violation(what, dict(kw))
 
-    cases, exp_cases = [], []
+    cases, exp_cases, opt_cases = [], [], []
     n_chains = 120 if not thorough else 1200
     for it in range(n_chains):
         src = rng.choice(["random", "random", "random", "fixed", "credit"])
@@ -146,6 +148,24 @@ def correspond(res):
         exponential = rng.random() < 0.2
         spec = step_spec(nu, a=a, sigma=sigma, representation=rep)
         ctx = dict(kind="step", model=spec, axis=[float(x) for x in grid.axes[0]], o=o, h=float(grid.h), exponential=exponential)
+        if rep == "ZERO" and not fv:
+            # the ZERO representation requires jumps of finite variation: set_representation(TILDE) must raise ValueError, and the
+            # generated conversion returns its error value (chain_process_drift_opt = None)
+            res.count(("zero-iv", tuple(ctx["axis"]), o, str(nu.pieces()), str(a)), kind="ZERO/iv (ValueError expected)")
+            raised = None
+            try:
+                with warnings.catch_warnings():
+                    warnings.simplefilter("ignore")
+                    build_process(build_model(spec, exponential=exponential, spot=100.0, r=0.03125, d=0.015625), grid)
+            except ValueError as e:
+                raised = str(e)
+            except Exception as e:  # noqa
+                raised = f"{type(e).__name__}: {e}"
+            if raised is None or "ZERO representation requires jumps of finite variation" not in raised:
+                viol("a model declared in the ZERO representation with jumps of infinite variation is not rejected with the documented ValueError",
+                     raised=raised, **ctx)
+            opt_cases.append(f"({nu.coq()}, {lst([qlit(float(x)) for x in grid.axes[0]])}, {natlit(o)}, {qlit(0)}, {zlit(1)}, false, {qlit(a)}, None)")
+            continue
         try:
             model = build_model(spec, exponential=exponential, spot=100.0, r=0.03125, d=0.015625)
             with warnings.catch_warnings():
@@ -186,11 +206,18 @@ def correspond(res):
         lit = (f"({nu.coq()}, {lst([qlit(float(x)) for x in grid.axes[0]])}, {natlit(o)}, {qlit(md)}, {zlit(REP_VAL[rep])}, {blit(fv)}, "
                f"{qlit(a)}, {qlit(sigma)}, {qlit(float(grid.h))}, {qlit(pd)}, {qlit(float(mu_h))}, {qlit(edc2)})")
         (cases if exact else exp_cases).append(lit)
+        if exact and len(opt_cases) < 60:
+            opt_cases.append(f"({nu.coq()}, {lst([qlit(float(x)) for x in grid.axes[0]])}, {natlit(o)}, {qlit(md)}, {zlit(REP_VAL[rep])}, "
+                             f"{blit(fv)}, {qlit(a)}, (Some {qlit(pd)}))")
         res.bump("exactness", "exact" if exact else "tolerance")
 
     ty = "list (Q * Q * Q) * list Q * nat * Q * Z * bool * Q * Q * Q * Q * Q * Q"
     sig_ok = "(let s := chain_sig_h2 ps xs sigma fv h in Qle_bool (Qabs (e2 - s)) (s * (1 # 70368744177664) + (1 # 1267650600228229401496703205376)))"
+    if not any(c.endswith("None)") for c in opt_cases):     # always exercise the error branch
+        opt_cases.append("([(-2, 2, 3)], [-2; -1; 0; 1; 2], 2%nat, 0, 1%Z, false, (1#2), None)")
     groups = [
+        ("raise", "list (Q * Q * Q) * list Q * nat * Q * Z * bool * Q * option Q",
+         "fun c => match c with (ps, xs, o, md, rep, fv, a, e) => option_eqb Qeq_bool (chain_process_drift_opt ps xs o md rep fv a) e end", opt_cases),
         ("exact", ty, "fun c => match c with (ps, xs, o, md, rep, fv, a, sigma, h, pd, muh, e2) => "
                       "Qeq_bool (chain_process_drift ps xs o md rep fv a) pd && Qeq_bool (chain_mu_h ps xs o) muh && " + sig_ok + " end", cases),
         ("tol", ty, "fun c => match c with (ps, xs, o, md, rep, fv, a, sigma, h, pd, muh, e2) => "
@@ -364,7 +391,7 @@ def _copula_drift(res, rng, viol, groups, n_cases):
             ax = axes[k][0]
             nu = random_step_measure(rng, ax[0], ax[-1], bits=2, cover=True, max_pieces=4, zero_prob=0.0)
             nu.finite_variation, nu.strict = flags[k], False
-            rep = rng.choice(["ZERO", "CENTER", "ONEONE", "TILDE"])
+            rep = rng.choice(["ZERO", "CENTER", "ONEONE", "TILDE"] if flags[k] else ["CENTER", "ONEONE", "TILDE"])   # ZERO needs finite variation
             a = Fr(rng.randrange(-8, 9), 8)
             specs.append(step_spec(nu, a=a, sigma=0, representation=rep))
             margins.append((nu, rep, a))
